@@ -6,7 +6,7 @@ from .. import common, gen, ref
 from . import c01
 
 PROP = "C10"
-RULE = ("bounded-exhaustive strings over the 38-character class alphabet (tiling invariants online on every input, full token lists compared with R-TOK "
+RULE = ("bounded-exhaustive strings over the 40-character class alphabet (tiling invariants online on every input, full token lists compared with R-TOK "
         "for every string of length <= 3 and a 1-in-16 sample beyond), random soup/corruptions up to ~400 bytes, and configurations (fresh processes) "
         "that tokenize probe inputs before and after registering 1-5 extra symbolic / word operators in every role. distinct class = (token kind, "
         "kind of the following token, glued or spaced) pairs observed in agreement with R-TOK, plus one class per configuration operator")
@@ -201,7 +201,7 @@ def run(rep, tier):
     for part in common.pmap(run_shard, shards):
         rep.merge(part)
     rep.extra["exhaustive"] = True
-    rep.extra["exhaustive_space"] = "all strings of length <= %d over the 38-symbol class alphabet (tiling invariants); full R-TOK comparison for length <= 3" % L
+    rep.extra["exhaustive_space"] = "all strings of length <= %d over the 40-symbol class alphabet (tiling invariants); full R-TOK comparison for length <= 3" % L
     rep.floor = 50000
 
 
